@@ -186,4 +186,4 @@ def prop_arrays(case):
 
 
 PARTS = [Part('tables', prop_tables, enumerate=enum_tables, quick=(4, 0), thorough=(8, 0)),
-         Part('arrays', prop_arrays, strategy=array_cases, quick=(4, 400), thorough=(16, 5000))]
+         Part('arrays', prop_arrays, strategy=array_cases, quick=(4, 400), thorough=(16, 15000))]
